@@ -163,6 +163,8 @@ def parse_vspec(path):
             cur_fn["r17"] = True
         elif head == "r18":
             cur_fn["r18"] = True
+        elif head == "r19":
+            cur_fn["r19"] = True
         elif head == "fnattr":
             cur_fn.setdefault("fnattrs", []).append(rest)
         elif head == "r9":
@@ -510,6 +512,25 @@ class UnitGen:
             edits.append((be, e, (")" if n["method"] == "map" else "") + ", None => None })", "R1"))
             self.rewrites.append({"rule": "R1", "what": f"Option::{n['method']}(|{pat}| ..) -> match in {qual}",
                                   "file": src.rel, "line": src.line_of(s)})
+        # R19: `E.map(Ctor)` on an Option, where Ctor is the path of a tuple-variant constructor with one field
+        # -> `(match E { Some(v) => Some(Ctor(v)), None => None })` (definition of Option::map; the installed Verus refuses a
+        # datatype constructor used as a function value)
+        if fs.get("r19"):
+            k19 = 0
+            for n in nodes:
+                if n["kind"] == "path_call" and n["method"] == "map" and n["segments"] >= 2:
+                    ctor = src.text(*n["path"])
+                    if not re.fullmatch(r"[A-Za-z_]\w*(::[A-Za-z_]\w*)*", ctor) or not ctor.split("::")[-1][0].isupper():
+                        raise Undecided(f"fn {qual}: R19 refused ({ctor!r} is not a constructor path)")
+                    s0, e0 = n["range"]
+                    rs, re_ = n["receiver"]
+                    edits.append((s0, rs, "(match ", "R19"))
+                    edits.append((re_, e0, f" {{ Some(vx_v{k19}) => Some({ctor}(vx_v{k19})), None => None }})", "R19"))
+                    k19 += 1
+                    self.rewrites.append({"rule": "R19", "what": f"`E.map({ctor})` -> match E {{ Some(v) => Some({ctor}(v)), None => None }} in {qual}",
+                                          "file": src.rel, "line": src.line_of(s0)})
+            if k19 == 0:
+                raise Undecided(f"fn {qual}: R19 requested but no `.map(Constructor)` found (lost anchor)")
         # R2: break V -> return V for tail loops
         loops = {n["ord"]: n for n in nodes if n["kind"] in ("loop", "while", "for")}
         for lo in fs["r2"]:
